@@ -143,6 +143,23 @@ with ht_child (k : child) : nat :=
 Lemma lmax_Forall {X} (h : X -> nat) xs n : lmax (map h xs) <= n -> Forall (fun x => h x <= n) xs.
 Proof. induction xs as [|x xs IH]; simpl; intros H; constructor; [lia | apply IH; lia]. Qed.
 
+Notation mm := max_markers.
+Lemma mm_app x y : mm (x ++ y) = Nat.max (mm x) (mm y).
+Proof. induction x as [|l x IH]; simpl; auto. unfold mm in *. simpl. rewrite IH. lia. Qed.
+Lemma mm_cons l r : mm (l :: r) = Nat.max (List.length (fst l)) (mm r).
+Proof. reflexivity. Qed.
+Lemma mm_map_add (g : sline -> marker) ls :
+  mm (map (fun l => sl_add (g l) l) ls) = match ls with [] => 0 | _ => S (mm ls) end.
+Proof.
+  induction ls as [|l ls IH]; auto. simpl map. rewrite !mm_cons, IH. simpl. destruct ls; simpl; lia.
+Qed.
+Lemma mm_pref A g l0 r : mm (pref A g (l0 :: r)) = S (mm (l0 :: r)).
+Proof. simpl pref. rewrite !mm_cons, mm_map_add. simpl. destruct r; simpl; lia. Qed.
+Lemma mm_flat_map_le {X} (F : X -> list sline) xs x : In x xs -> mm (F x) <= mm (flat_map F xs).
+Proof.
+  induction xs as [|y xs IH]; simpl; [tauto|]. rewrite mm_app. intros [->|H]; [lia|]. specialize (IH H). lia.
+Qed.
+
 Definition frame_head (m : marker) : bool := match m with SCX | CCX | SCC | SCODE => true | _ => false end.
 Definition kid_head (m : marker) : bool := match m with SC | CC => true | _ => false end.
 Definition node_head (m : marker) : bool := body_head m || kid_head m.
@@ -257,14 +274,14 @@ Section RoundTrip.
 
   Definition Ps (s : stack) : Prop :=
     hd_ok body_head (B s)
-    /\ forall n, ht_stack s <= n -> parse_body (parse_node n) (B s) = Some (sk_body o s).
+    /\ forall n, mm (B s) <= S n -> parse_body (parse_node n) (B s) = Some (sk_body o s).
   Definition Pf (f : frame) : Prop :=
     hd_ok frame_head (tl (Fm f))
-    /\ forall n, ht_frame f <= n -> parse_frame (parse_node n) (Fm f) = Some (sk_of_frame o f).
+    /\ forall n, mm (Fm f) <= n -> parse_frame (parse_node n) (Fm f) = Some (sk_of_frame o f).
   Definition Pc (c : context) : Prop :=
     forall hp sl, vis o (c_hide c) = true ->
       hd_ok node_head (tl (Cx hp sl c))
-      /\ forall n, ht_ctx c <= n -> parse_node n (Cx hp sl c) = Some (sk_of_ctx o hp sl c).
+      /\ forall n, mm (Cx hp sl c) < n -> parse_node n (Cx hp sl c) = Some (sk_of_ctx o hp sl c).
   Definition Pk (k : child) : Prop := match k with KCtx c => Pc c | KStk s => Ps s end.
 
   Lemma stack_case r fs lf er : Forall Pf fs -> Ps (Stk r fs lf er).
@@ -276,7 +293,13 @@ Section RoundTrip.
       + destruct lf; simpl; repeat constructor.
       + destruct er; simpl; [|constructor]. constructor; [reflexivity|].
         apply Forall_forall. intros x Hx. apply in_map_iff in Hx as [l0 [<- _]]. reflexivity.
-    - intros n Hn. rewrite B_eq. simpl in Hn. apply lmax_Forall in Hn.
+    - intros n Hn0. rewrite B_eq.
+      assert (Hn : Forall (fun f => vis o (f_hide f) = true -> mm (Fm f) <= n) fs).
+      { apply Forall_forall. intros f Hin Hv. rewrite B_eq, mm_app in Hn0.
+        pose proof (mm_flat_map_le (fun f => if f_hide f && negb (show_hidden o) then []
+                                              else prefix_block sline sl_add SF CF (Fm f)) fs f Hin) as Hle.
+        cbv beta in Hle. rewrite vis_hide, Hv in Hle. simpl negb in Hle. cbv iota in Hle.
+        rewrite prefix_block_pref, Fm_eq, mm_pref, <- Fm_eq in Hle. lia. }
       destruct (blocks_items SF (is_m CF) (fun _ => CF) (fun l => conj eq_refl eq_refl)
                   (fun f => if f_hide f && negb (show_hidden o) then [] else Fm f)
                   (fun f => vis o (f_hide f)) (sk_of_frame o) (parse_frame (parse_node n)) fs) as [bs [Hb Hp]].
@@ -332,7 +355,7 @@ Section RoundTrip.
   Proof. intros H. rewrite Cx_eq, vis_hide, H. reflexivity. Qed.
 
   Lemma ctx_items (hp sl : bool) n cs :
-    Forall Pc cs -> Forall (fun c => ht_ctx c <= n) cs ->
+    Forall Pc cs -> Forall (fun c => vis o (c_hide c) = true -> mm (Cx hp sl c) < n) cs ->
     Forall (fun c => (vis o (c_hide c) = false /\ Cx hp sl c = [])
                      \/ (vis o (c_hide c) = true /\ exists l0 ls, Cx hp sl c = l0 :: ls
                            /\ parse_node n (l0 :: ls) = Some (sk_of_ctx o hp sl c))) cs.
@@ -341,7 +364,7 @@ Section RoundTrip.
     eapply Forall_forall in HP; eauto. eapply Forall_forall in Hn; eauto.
     destruct (vis o (c_hide c)) eqn:Hv; [right|left; split; auto using Cx_hidden].
     split; auto. exists (sl_lit (ctx_line hp sl c)), (tl (Cx hp sl c)). split; [apply Cx_visible; auto|].
-    rewrite <- Cx_visible by auto. apply (HP hp sl Hv). exact Hn.
+    rewrite <- Cx_visible by auto. apply (HP hp sl Hv). apply Hn. reflexivity.
   Qed.
 
   Lemma frame_case fn cls md file ln src loc h hl cs :
@@ -365,10 +388,14 @@ Section RoundTrip.
                    = Some (if show_ctx o
                            then flat_map (fun c => if vis o (c_hide c) then [sk_of_ctx o true true c] else []) (f_ctxs f)
                            else [])) as [bs [Hb Hp]].
-      { destruct (show_ctx o); [|exists []; split; reflexivity].
+      { destruct (show_ctx o) eqn:Hsc; [|exists []; split; reflexivity].
         destruct (blocks_items SCX ctx_cont gctx gctx_ok (Cx true true) (fun c => vis o (c_hide c))
                     (sk_of_ctx o true true) (parse_node n) (f_ctxs f)) as [bs [Hb Hp]].
-        { apply ctx_items; auto. apply lmax_Forall. exact Hn. }
+        { apply ctx_items; auto. apply Forall_forall. intros c Hin Hv.
+          rewrite Fm_eq, mm_cons, mm_app, Hsc in Hn.
+          pose proof (mm_flat_map_le (fun c => prefix_ctx sline sl_add sl_is_child (Cx true true c)) (f_ctxs f) c Hin) as Hle.
+          cbv beta in Hle. rewrite prefix_ctx_pref, (Cx_visible true true c Hv), mm_pref, <- (Cx_visible true true c Hv) in Hle.
+          lia. }
         exists bs. split; auto. erewrite flat_map_ext; [exact Hb|]. intros c. apply prefix_ctx_pref. }
       erewrite parse_frame_spec; [ | exact HCL | | exact Hb | exact Hp | exact Hshape ].
       + exact (f_equal (fun x => Some (SkFrame _ _ x)) Hcode).
@@ -904,16 +931,18 @@ Qed.
 
 Lemma join_sp_nonl l : forallb nonl l = true -> nonl (join_sp l) = true.
 Proof.
-  induction l as [|x l IH]; simpl; auto. intros H. apply andb_true_iff in H as [H1 H2].
-  destruct l as [|y l]; auto. rewrite !nonl_app, H1, IH by auto. reflexivity.
+  induction l as [|x l IH]; auto. intros H. simpl in H. apply andb_true_iff in H as [H1 H2].
+  destruct l as [|y l]; [exact H1|].
+  change (join_sp (x :: y :: l)) with (x ++ a " " ++ join_sp (y :: l)).
+  rewrite !nonl_app, H1, (IH H2). reflexivity.
 Qed.
 
 Lemma name_and_type_nonl c : clean_ctx c = true -> nonl (name_and_type c) = true.
 Proof.
-  destruct c as [ty asy ex vn sl ds csrc cr orp inn ks hh]. simpl. intros H. split_and.
-  destruct ty as [t|]; simpl in *.
-  - rewrite !nonl_app. replace (nonl t) with true by auto.
-    destruct vn as [[|x v]|]; simpl in *; auto. replace (nonl (x :: v)) with true by auto. reflexivity.
+  destruct c as [ty asy ex vn sl ds csrc cr orp inn ks hh]. intros H. simpl in H. split_and.
+  unfold name_and_type. destruct ty as [t|].
+  - rewrite !nonl_app. repeat (apply andb_true_iff; split); auto.
+    destruct vn as [[|x v]|]; auto.
   - destruct vn; auto.
 Qed.
 
@@ -923,11 +952,11 @@ Proof.
   destruct c as [ty asy ex vn sl0 ds csrc cr orp inn ks hh]. unfold ctx_line.
   set (info := name_and_type _) in *. simpl in Hc. split_and.
   set (lt0 := match sl0 with Some _ => if hp then csrc else [] | None => [] end).
-  assert (H0 : nonl lt0 = true) by (unfold lt0; destruct sl0, hp; auto).
+  assert (Hlt0 : nonl lt0 = true) by (unfold lt0; destruct sl0, hp; auto).
   set (lt := if nonempty lt0 then lt0 else _).
   assert (Hl : nonl lt = true).
   { unfold lt. destruct (nonempty lt0); auto. destruct ds as [[|x d]|]; simpl in *; auto; destruct asy; reflexivity. }
-  set (parts := _ ++ _).
+  set (parts := (if nonempty info then [info] else []) ++ _).
   assert (Hp : forallb nonl parts = true).
   { unfold parts. rewrite forallb_app. destruct (nonempty info); simpl; rewrite ?Hi; simpl;
       destruct sl0; auto; destruct sl; simpl; auto; rewrite !nonl_app, nonl_dec; reflexivity. }
@@ -1052,9 +1081,6 @@ Section OneLine.
 End OneLine.
 
 (* F12: a payload with a newline gives a format() element that is not a single line *)
-Definition count_nl (t : text) : nat := List.length (filter (N.eqb 10) t).
-Definition single_lines (ls : list text) : bool :=
-  forallb (fun t => Nat.eqb (count_nl t) 1 && match rev t with c :: _ => N.eqb c 10 | [] => false end) ls.
 Definition f12_witness : stack := Stk None [] (Some (a "<ML" ++ [10%N] ++ a "line2>")) None.
 Lemma F12_refuted :
   exists s o, single_lines (fmt_stack_str o s) = false.
